@@ -234,12 +234,34 @@ fn c14_tinylfu(shard: &mut Shard, counters: u64, seed: u64) {
     shard.case(fnv_step(0x147, counters ^ seed << 20), true);
 }
 
+/// A window far larger than any internal table: 200 000 counters, 70 000 distinct hashes recorded once each (no ageing can happen), then
+/// every one of them must still be known to the first-access filter and carry an estimate of at least one.
+fn c14_many_first_accesses(shard: &mut Shard, seed: u64) {
+    let mut rng = Rng::new(seed ^ 0x70_000);
+    let mut lfu = VerifTinyLFU::new(200_000);
+    let hashes: Vec<u64> = (0..70_000).map(|_| rng.next() | 1).collect();
+    for chunk in hashes.chunks(500) { lfu.increment_access(chunk.to_vec()); }
+    let witness = J::obj().with("counters", J::Int(200_000)).with("distinct_first_accesses", J::Int(70_000));
+    if lfu.total_increments() != 70_000 {
+        fail(shard, &["C14"], "C14/reset-not-at-exactly-the-configured-number-of-accesses".into(), format!("70000 accesses into a window of 200000: total_increments is {}", lfu.total_increments()), witness.clone());
+        return;
+    }
+    let forgotten = hashes.iter().filter(|h| lfu.estimate(**h) == 0).count();
+    if forgotten > 0 {
+        fail(shard, &["C14"], "C14/estimate-under-counts/many-first-accesses".into(), format!("{} of 70000 hashes recorded once in the current window (200000 counters, no ageing yet) have estimate 0", forgotten), witness);
+        return;
+    }
+    shard.counts.inc("windows_with_70000_first_accesses");
+    shard.case(fnv_step(0x14F, seed), true);
+}
+
 fn run_c14(args: &Args, shard: &mut Shard) {
     let seed = args.u64("seed", 1);
     let from = args.u64("from", 0);
     let stride = args.u64("stride", 1);
     let count = args.u64("count", 10);
     if from == 0 { guarded(shard, &["C14", "C17"], "packed-row byte cases", |shard| c14_bytes(shard)); }
+    if from == 1 { guarded(shard, &["C14", "C17"], "70000 first accesses in one window", |shard| c14_many_first_accesses(shard, seed)); }
     // every counter count 1..=130 is covered across the shards, plus random larger ones (non-powers of two included)
     let mut c = 1 + from;
     while c <= 130 {
